@@ -62,7 +62,7 @@ type Walker struct {
 	// (its return statements are the closure's, not the function's).
 	FuncLitDepth int
 
-	floor    map[types.Object]int // version numbers already used in dead branches
+	floor    map[types.Object]int     // version numbers already used in dead branches
 	boolDefs map[types.Object]boolDef // boolean locals defined from a condition: b := x == nil || y.Empty()
 
 	cur    uint64 // set of path states at the current program point
@@ -368,7 +368,7 @@ func (w *Walker) Cond(e ast.Expr) Formula {
 			}
 		}
 		return Atom("b:" + w.Path(e))
-	case *ast.SelectorExpr, *ast.CallExpr, *ast.IndexExpr:
+	case *ast.SelectorExpr, *ast.CallExpr, *ast.IndexExpr, *ast.StarExpr:
 		return Atom("b:" + w.Path(e))
 	}
 	return w.fresh()
